@@ -380,6 +380,36 @@ def pool(src, kind, n):
     return out
 
 
+# date-times around daylight-saving switches of named zones (local wall clock, the UTC instant, the same instant with a numeric
+# offset): the universal laws (symmetry of =, != as negation, mirror images of < <= > >=) hold for them as for every value
+DST_SWITCHES = [   # (zone, UTC instant of the switch as (y, m, d, h), standard offset hours, summer offset hours)
+    ("Europe/Warsaw", (2021, 3, 28, 1), 1, 2), ("Europe/Warsaw", (2021, 10, 31, 1), 1, 2),
+    ("America/New_York", (2021, 3, 14, 7), -5, -4), ("America/New_York", (2021, 11, 7, 6), -5, -4),
+    ("Australia/Sydney", (2021, 4, 3, 16), 10, 11), ("Australia/Sydney", (2021, 10, 2, 16), 10, 11),
+    ("Europe/London", (2020, 3, 29, 1), 0, 1), ("Europe/London", (2020, 10, 25, 1), 0, 1),
+]
+
+
+def _dt_text(src, zone, base, minutes, std, summer):
+    import datetime
+    t = datetime.datetime(*base) + datetime.timedelta(minutes=minutes)
+    form = src.weighted([(4, "zone"), (3, "utc"), (2, "offset")])
+    if form == "utc":
+        return t.strftime("%Y-%m-%dT%H:%M:%S") + "Z"
+    off = src.choice([std, summer])
+    local = t + datetime.timedelta(hours=off)
+    if form == "offset":
+        return local.strftime("%Y-%m-%dT%H:%M:%S") + "%s%02d:00" % ("+" if off >= 0 else "-", abs(off))
+    return local.strftime("%Y-%m-%dT%H:%M:%S") + "@" + zone
+
+
+def gen_dst_pair(src):
+    zone, base, std, summer = src.choice(DST_SWITCHES)
+    a = _dt_text(src, zone, base, 10 * src.int(-18, 18), std, summer)
+    b = _dt_text(src, zone, base, 10 * src.int(-18, 18), std, summer)
+    return {"k": ["dt", "dt"], "v": [{"dt": a}, {"dt": b}]}
+
+
 def gen_rand_pair(src):
     kind = src.choice(ORDERED)
     p = pool(src, kind, 2)
@@ -449,6 +479,7 @@ def setup(ctx):
     ctx.p_triple = ctx.register(Part("triples", None, reqs_triple, judge_triple))
     ctx.p_rpair = ctx.register(Part("random-pairs", gen_rand_pair, reqs_pair, judge_pair))
     ctx.p_rtriple = ctx.register(Part("random-triples", gen_rand_triple, reqs_triple, judge_triple))
+    ctx.p_dst = ctx.register(Part("dst-pairs", gen_dst_pair, reqs_pair, judge_pair))
 
 
 def run(ctx):
@@ -458,6 +489,7 @@ def run(ctx):
     ctx.enumerate(ctx.p_triple, mixed_triples(), name="all ordered triples of the %d-value mixed alphabet (not of one ordered kind)" % len(MIXED), exhaustive=True)
     ctx.forall(ctx.p_rpair, ctx.scale(50000, 1500000), batch=400)
     ctx.forall(ctx.p_rtriple, ctx.scale(50000, 1500000), batch=400)
+    ctx.forall(ctx.p_dst, ctx.scale(12000, 300000), batch=400)
 
 
 if __name__ == "__main__":
